@@ -1,7 +1,7 @@
 // C11 (fit part) conformance driver: fits gboost_model_t and linear_t on small random datasets and re-computes, through
 // the public API only, everything the returned ml::result_t reports; one event per (trial, fold) slot and per fit.
 //   fit_driver <out.ndjson> <seed> <gboost-cases> <linear-cases>
-#include "tabledata.h"
+#include "problems.h"
 #include <nano/dataset/iterator.h>
 #include <nano/gboost/model.h>
 #include <nano/gboost/result.h>
@@ -15,49 +15,8 @@ using namespace nano;
 
 namespace
 {
-struct problem_t
-{
-    std::unique_ptr<vt::table_datasource_t> source;
-    std::unique_ptr<dataset_t>              dataset;
-    bool                                    classification{false};
-};
-
-problem_t make_problem(vt::Rng& rng, bool allow_classification, bool with_missing)
-{
-    const auto n = rng.range(20, 60);
-    problem_t  p;
-    p.classification = allow_classification && rng.coin(1, 3);
-
-    auto x1 = vt::make_scalar_column("x1", feature_type::float64, n);
-    auto x2 = vt::make_scalar_column("x2", rng.coin() ? feature_type::float32 : feature_type::int16, n);
-    auto c1 = vt::make_sclass_column("c1", 3, n);
-    auto y  = p.classification ? vt::make_sclass_column("y", 2, n) : vt::make_scalar_column("y", feature_type::float64, n);
-
-    const double table[3] = {-1.5, 0.25, 2.0};
-    const auto   w1 = rng.uniform(-2, 2), w2 = rng.uniform(-1, 1);
-    for (int64_t s = 0; s < n; ++s)
-    {
-        x1.flat[static_cast<size_t>(s)] = static_cast<double>(rng.range(-8, 8)) / 4.0;
-        x2.flat[static_cast<size_t>(s)] = static_cast<double>(rng.range(-5, 5));
-        c1.flat[static_cast<size_t>(s)] = static_cast<double>(rng.range(0, 2));
-        const auto f = w1 * x1.at(s) + w2 * x2.at(s) + table[static_cast<int>(c1.at(s))] + rng.uniform(-0.3, 0.3);
-        y.flat[static_cast<size_t>(s)] = p.classification ? (f > 0.2 ? 1.0 : 0.0) : f;
-        if (with_missing)
-        {
-            x2.missing[static_cast<size_t>(s)] = static_cast<char>(rng.coin(1, 8));
-            c1.missing[static_cast<size_t>(s)] = static_cast<char>(rng.coin(1, 10));
-        }
-    }
-    std::vector<vt::column_t> columns{x1, x2, c1, y};
-    p.source = std::make_unique<vt::table_datasource_t>(n, columns, 3U);
-    p.source->load();
-    p.dataset = std::make_unique<dataset_t>(*p.source, static_cast<size_t>(rng.range(1, 4)));
-    p.dataset->add<sclass_identity_generator_t>();
-    p.dataset->add<mclass_identity_generator_t>();
-    p.dataset->add<scalar_identity_generator_t>();
-    p.dataset->add<struct_identity_generator_t>();
-    return p;
-}
+using vt::problem_t;
+using vt::make_problem;
 
 // (errors, losses) of the given outputs on the given samples, from the loss's public interface
 tensor2d_t evaluate(const dataset_t& dataset, const indices_t& samples, const loss_t& loss, const tensor4d_t& outputs)
